@@ -74,18 +74,19 @@ Lemma sample_history_ok :
 Proof. split; [reflexivity|]. split; vm_compute; reflexivity. Qed.
 
 (* ---- C09 ---- *)
-(* finding 20: a document's root (without comments / PIs around it) passes the "has neither parent nor siblings" test *)
-Lemma docroot_offer_not_refused :
-  is_doc_root (abs_world w_dns) 0 = true /\ snd (cstep fall w_dns (OAppend 1 [SNode 0])) = ROk.
-Proof. split; reflexivity. Qed.
-(* finding 21: offering an ancestor is not refused by delb; lxml raises ValueError after delb has begun *)
+(* regression cases: the witnesses of the repaired findings 19-22 are refused now, and nothing changes *)
 Definition w_anc : cworld :=
   {| w_docs := []; w_loose := [LEl (CEl 1 (KTag [] [97] []) None no_chain [(CEl 2 (KTag [] [98] []) None no_chain [], no_chain)])] |}.
-Lemma ancestor_offer_crashes : cwf w_anc /\ snd (cstep fall w_anc (OAddFollowing 2 [SNode 1])) = Crash EValueError.
-Proof. split; reflexivity. Qed.
-(* finding 22: a parentless text node asked to take a tag() definition as sibling: AttributeError, not a refusal *)
-Lemma loose_text_tagdef_crashes : snd (cstep fall w_big (OAddFollowing 12 [STag 30 [120]])) = Crash EAttributeError.
-Proof. reflexivity. Qed.
+Definition w_item : cworld :=     (* <a><k/>t</a> and a parentless childless <r/> *)
+  one_doc (CEl 0 (KTag [] [97] []) None no_chain [(CEl 1 (KTag [] [107] []) None no_chain [], ch 2 [116] [])])
+          [LEl (CEl 3 (KTag [] [114] []) None no_chain [])].
+Lemma repaired_findings :
+  cstep fall w_item (OSetItem 3 0%Z (SNode 1)) = (w_item, Rejected EInvalidOperation) /\          (* 19 *)
+  cstep fall w_dns (OAppend 1 [SNode 0]) = (w_dns, Rejected EInvalidOperation) /\                 (* 20 *)
+  cstep fall w_anc (OAddFollowing 2 [SNode 1]) = (w_anc, Rejected EInvalidOperation) /\           (* 21 *)
+  cstep fall w_anc (OAppend 2 [SNode 1]) = (w_anc, Rejected EInvalidOperation) /\                 (* 21, below a descendant *)
+  cstep fall w_big (OAddFollowing 12 [STag 30 [120]]) = (w_big, Rejected EInvalidOperation).      (* 22 *)
+Proof. repeat split; reflexivity. Qed.
 (* refusals that do occur *)
 Lemma refusal_examples :
   cwf w_big /\
